@@ -488,7 +488,11 @@ func (t *Collection) VisitItemsRandom(
 			// The behaviour we want is to visit the first item in each of blockStore
 			// then on the second item update blockStore to point to that second item
 			// repeat for each item in the block
+			if si == nil {
+				continue // This (last, partial) block is exhausted.
+			}
 			first := true
+			advanced := false
 			vis := func(itm *Item, depth uint64) bool {
 
 				if first {
@@ -496,12 +500,16 @@ func (t *Collection) VisitItemsRandom(
 					return visitor(itm, depth)
 				}
 				first = true
+				advanced = true
 				blockStore[i] = itm.Key
 				return false
 			}
 			err = t.VisitItemsAscendEx(si, true, vis)
 			if err != nil {
 				return err
+			}
+			if !advanced {
+				blockStore[i] = nil // No item follows: nothing left to visit here.
 			}
 		}
 	}
